@@ -110,12 +110,13 @@ structure CInv (v : Variant) (s : State) : Prop where
   post_closed : 0 < s.closePre + s.closePost + s.closeReturned → s.closed = true
   winner : v = .fixed → s.closed = true → s.closeCh = false → 1 ≤ s.closePre
   orig_pre : v = .orig → s.closePre = 0 ∧ (s.closed = true → s.closeCh = true)
+  closed_called : s.closed = true → 0 < s.closePre + s.closePost + s.closeReturned
 
 theorem cinv_init (v : Variant) : CInv v init := by
   constructor <;> simp [init]
 
 theorem cinv_step {v s l s'} (h : CInv v s) (hs : step v s l = some s') : CInv v s' := by
-  obtain ⟨h1, h2, h3, h4⟩ := h
+  obtain ⟨h1, h2, h3, h4, h5⟩ := h
   cases l <;> unfold_step hs <;> (repeat' split at hs) <;> (try simp at hs) <;> (try subst hs) <;>
     (try (constructor <;> simp_all <;> omega))
   · -- closePass
@@ -127,10 +128,12 @@ theorem cinv_step {v s l s'} (h : CInv v s) (hs : step v s l = some s') : CInv v
       rcases hc with hc | hc
       · simp [hc] at hch
       · omega
+    · intro _; omega
   · -- closeReturn
     next hg =>
     constructor <;> simp_all
-    intro _; exact h2 (by omega)
+    · intro _; exact h2 (by omega)
+    · intro _; omega
 
 /-! ### The per-subscriber invariant -/
 
